@@ -118,6 +118,75 @@ PROPS.update({
     },
 })
 
+SCHED_ASSUME = COMMON_ASSUME + [
+    "atomic blocks are the code between two intercepted operations (task start/exit, shim mutex lock, record taken, "
+    "every scc map operation, shim atomics); races inside one block and memory orderings weaker than sequential "
+    "consistency are not modelled",
+    "rayon's internal work distribution is not scheduled (tasks are identified by registration or by their chunk); "
+    "every exploration first replays one schedule twice and requires identical event logs",
+]
+SCHED_STATES = (["sched.branching_points", "sched.schedules"], ["sched.choice_points"], ["sched.schedules"])
+
+PROPS.update({
+    "C05": {
+        "engine": "ktmc-sched",
+        "technique": "stateless controlled-scheduler exploration of worker interleavings (iterative preemption bounding) plus exhaustive configuration lattice",
+        "parts": [ktmc("C05sched"), ktmc("C05cfg")],
+        "rule": "schedules: depth-first exploration by re-execution of every interleaving of the real mmap worker loop "
+                "(N=2 workers unbounded, N=3 up to the stated preemption bound) over 2-4 records with pairwise different "
+                "rows; oracle per schedule: output bytes = rows in input order; observed record->worker assignments "
+                "are listed (non-vacuity). configurations: record sets x threads 1..=16 x batch limits x both "
+                "writers x 7 containers (x header x delimiters): bytes identical to the rows in input order. "
+                "states = branching decision points + terminal states, transitions = scheduling steps executed, "
+                "traces = complete schedules executed on the real code. Every schedule/configuration is distinct.",
+        "states": SCHED_STATES,
+        "assumptions": SCHED_ASSUME + ["the batch writer's par_iter().collect() is covered by configurations only (rayon's ordered collect is trusted; its internal schedule is not controlled)"],
+    },
+    "C14": {
+        "engine": "ktmc-sched",
+        "technique": "write-log invariant checked on every explored worker interleaving and on an exhaustive configuration lattice; debug-assertion build as bounds monitor",
+        "parts": [ktmc("C14")],
+        "rule": "every write (offset, length, capacity) issued to the mapped file is logged (hook in MMWriter::write_at, "
+                "which refuses an out-of-range write before it happens) on every schedule of the C05 exploration "
+                "(with a 2-byte delimiter on the header cases) and on a lattice k x 6 delimiters of length 0,1,2,4 x "
+                "header x 0..=3 records x workers (1,2,3,16); invariant: in range, pairwise disjoint, union = whole "
+                "file, file size = header + records x row, no NUL byte. Unchecked indices: all enumerations of C04, "
+                "C07, C08, C12 run the /repo crates with debug assertions, where a violated get_unchecked "
+                "precondition aborts the shard and is reported with the journalled case.",
+        "states": SCHED_STATES,
+        "assumptions": SCHED_ASSUME,
+    },
+    "C07": {
+        "engine": "ktmc-sched",
+        "technique": "stateless controlled-scheduler exploration of count/merge worker interleavings with phase-barrier state caching, plus exhaustive configuration enumeration",
+        "parts": [ktmc("C07sched"), ktmc("C07cfg")],
+        "rule": "schedules: every interleaving (up to the stated preemption bound) of the real count() workers - limit "
+                "check, reader mutex, record taken, every map operation, atomic additions, exit - for 2-3 workers and "
+                "2-3 records colliding on the same k-mers under base limits 0, 4 and unlimited; merge() workers "
+                "explored once per distinct on-disk state between the phases and one partition at a time; oracle per "
+                "schedule: kmers.counts as a multiset of lines = model counts, one line per k-mer, temp files "
+                "present/absent as asked; observed (chunks, partitions, records per chunk) outcomes are listed. "
+                "configurations: every list of <= 2 (thorough 3) short records x k x 6 (threads, ceiling) settings "
+                "(1 to 14 chunks, 1 to 59 partitions), ACGT and numeric rendering, repetitive inputs for k 15, 31.",
+        "states": SCHED_STATES,
+        "assumptions": SCHED_ASSUME + ["merge scheduling is explored when chunks <= pool threads (otherwise which chunk tasks start first is rayon's choice and the phase runs free)",
+                                       "configuration runs use free-running threads"],
+    },
+    "C10": {
+        "engine": "ktmc-sched",
+        "technique": "stateless controlled-scheduler exploration of the s2m / m2s worker interleavings plus exhaustive configuration enumeration",
+        "parts": [ktmc("C10sched"), ktmc("C10cfg")],
+        "rule": "schedules: every interleaving (N=2 unbounded where feasible, N=3 preemption-bounded) of seq_to_min and "
+                "bin_sequences workers over 2-3 records sharing minimisers (m=2, w=0 and w=3); oracle per schedule: "
+                "s2m = one line per record with the model's runs (multiset of lines), m2s = exact inversion of the "
+                "model's s2m (multiset per minimiser), w=0 means the whole record. configurations: all strings over "
+                "{A,C,G,T,N} up to length 5 (thorough 6) as one file x m 1..=3 x w in (0,m+1,m+2) x threads "
+                "(1,2,4,16), and every list of 2 (thorough 3) short records x 5 settings.",
+        "states": SCHED_STATES,
+        "assumptions": SCHED_ASSUME + ["configuration runs use free-running threads"],
+    },
+})
+
 
 def replay_py(body, path):
     raise fe.Machinery("no python replay runner for %s" % body.get("runner"))
